@@ -474,22 +474,25 @@ Definition exec (im : image) (i : instr) (s : mstate) : outcome :=
           | _ => Abort (EInternal "OUT REGISTER") []
           end
       | PIoOp IO_PRINT =>
-          match m_unnamed s with
-          | v :: _ => Next (advance (with_unnamed s [])) [EvOut v]
+          match rev (m_unnamed s) with
+          | v :: r => Next (advance (with_unnamed s (rev r))) [EvOut v]      (* the value pushed last *)
           | [] => Next (advance s) []
           end
       | PIoOp IO_PRINT_END => Next (advance s) [EvNewline]
       | PIoOp IO_PRINTF =>
           match i_p1 i with
           | PStr fmt =>
-              match printf_names fmt with
-              | Some names =>
+              match printf_names fmt, printf_positional fmt with
+              | Some names, Some k =>
                   let named := map (fun n => (n, match register_of_name n with
                                                  | Some r => reg s r
                                                  | None => get_var (m_globals s) (m_frames s) n
                                                  end)) names in
-                  Next (advance (with_unnamed s [])) [EvPrintf fmt (m_unnamed s) named]
-              | None => Abort (EUnsupported "printf format outside the scanned subset") []
+                  let n := zlength (m_unnamed s) in
+                  let first := Z.to_nat (Z.max 0 (n - k)) in
+                  Next (advance (with_unnamed s (firstn first (m_unnamed s))))
+                       [EvPrintf fmt (skipn first (m_unnamed s)) named]
+              | _, _ => Abort (EUnsupported "printf format outside the scanned subset") []
               end
           | _ => Abort (EInternal "OUT PRINTF") []
           end
